@@ -12,8 +12,8 @@ use serde_json::{json, Value};
 use std::collections::HashMap;
 
 const NONUM: i64 = -99999999;
-pub const PATHS: [&str; 10] = ["A.x", "A.y", "A.s", "A.l", "A.n.z", "B.rate", "B.s", "F.q", "k", "T.c"];
-const NUMPATHS: [&str; 6] = ["A.x", "A.y", "A.n.z", "B.rate", "F.q", "k"];
+pub const PATHS: [&str; 11] = ["A.x", "A.y", "A.s", "A.l", "A.n.z", "B.rate", "B.s", "F.q", "k", "_u", "T.c"];
+const NUMPATHS: [&str; 7] = ["A.x", "A.y", "A.n.z", "B.rate", "F.q", "k", "_u"];
 const STRS: [&str; 9] = ["a", "ab", "abc", "b", "bé", "日本", "2", "2.5", ""];
 
 // ---- values: (engine value, spec JSON) ----
@@ -170,6 +170,13 @@ fn gen_leaf(rng: &mut Rng) -> (ConditionGroup, Value) {
         }
         return (ConditionGroup::single(Condition::new(path.to_string(), op, RV::Expression(txt))), json!(["cmp", path, ops, ["ar", flat]]));
     }
+    if rng.chance(1, 10) {
+        // a STRING right-hand side that names a fact is read from the facts (the engine resolves it: nested, then flat lookup);
+        // when no such fact exists it is the literal text
+        let p = ["k", "A.x", "_u", "B.rate", "A.n.z", "nope", "_none"][rng.below(7)];
+        let v = RV::String(p.to_string());
+        return (ConditionGroup::single(Condition::new(path.to_string(), op, v.clone())), json!(["cmp", path, ops, ["sref", p, spec_of(&v)]]));
+    }
     let v = match ops {
         "<" | "<=" | ">" | ">=" => if rng.chance(1, 8) { gen_any(rng) } else { gen_num(rng) },
         "contains" | "startsWith" | "endsWith" => if rng.chance(1, 8) { gen_any(rng) } else { gen_str(rng) },
@@ -236,6 +243,7 @@ fn one_program(rng: &mut Rng, mode: &str) -> Value {
     facts.set("B", RV::Object(b));
     if present(rng) { let v = gen_num(rng); init.insert("F.q".into(), spec_of(&v)); facts.set("F.q", v); }
     if present(rng) { let v = gen_num(rng); init.insert("k".into(), spec_of(&v)); facts.set("k", v); }
+    if present(rng) { let v = gen_num(rng); init.insert("_u".into(), spec_of(&v)); facts.set("_u", v); }
 
     // ---- rules ----
     let nrules = match mode { "c01" => 1 + rng.below(5) / 4, "c03" => 1 + rng.below(5), _ => 2 + rng.below(7) };
